@@ -123,14 +123,15 @@ theorem app_phase_exact_legacy (H : Crypto.Prims) (P : Prims) (L : SealLaws P) (
     (h13 : cls.is13 = false) (macLen : Nat) (ver : Bytes) (hv : ver.length = 2) (evs : List Ev)
     (cars : List (List Nat)) (hc : cars.length = evs.length) (x : Snd) (s : Session.St Dec) (v : Session.Ver)
     (d : Dec) (hcan : s.canDecrypt = true) (hver : s.ver = some v) (hvne : v ≠ .tls13) (hdec : s.dec = some d)
-    (hR : Rel cls macLen x d) (happ : ∀ e ∈ evs, IsAppSend e) (hev : ∀ e ∈ evs, EvOk cls macLen e)
+    (hR : Rel cls macLen x d) (hbuf : ∀ d, s.hsBuf d = []) (happ : ∀ e ∈ evs, IsAppSend e)
+    (hev : ∀ e ∈ evs, EvOk cls macLen e)
     (hq : max x.c.seq x.s.seq + evs.length ≤ seqLimit) (m : Bool) :
     (Session.run (Pipeline.ops H P kl) m s (wireRecs (run P L cls ver x evs) cars)).traffic
       = s.traffic ++ List.zipWith (fun e (r : Session.Rec × Bool) => (⟨some (evPt e), r.1, evSrv e, true⟩ : Session.Entry))
           evs (wireRecs (run P L cls ver x evs) cars) ∧
     (wireRecs (run P L cls ver x evs) cars).length = evs.length := by
   have hs : Ready cls macLen x s :=
-    ⟨hcan, ⟨v, hver, ⟨fun h => absurd h hvne, fun h => by rw [h13] at h; cases h⟩⟩, d, hdec, hR⟩
+    ⟨⟨hcan, ⟨v, hver, ⟨fun h => absurd h hvne, fun h => by rw [h13] at h; cases h⟩⟩, d, hdec, hR⟩, hbuf⟩
   obtain ⟨h1, h2, _⟩ := app_phase_exact H P L kl cls macLen ver hv evs cars hc x s hs happ hev hq m
   exact ⟨h2, h1⟩
 
@@ -142,13 +143,13 @@ theorem app_phase_exact_13 (H : Crypto.Prims) (P : Prims) (L : SealLaws P) (kl :
     (h13 : cls.is13 = true) (macLen : Nat) (ver : Bytes) (hv : ver.length = 2) (evs : List Ev)
     (cars : List (List Nat)) (hc : cars.length = evs.length) (x : Snd) (s : Session.St Dec)
     (d : Dec) (hcan : s.canDecrypt = true) (hver : s.ver = some .tls13) (hdec : s.dec = some d)
-    (hR : Rel cls macLen x d) (happ : ∀ e ∈ evs, IsAppSend e)
+    (hR : Rel cls macLen x d) (hbuf : ∀ d, s.hsBuf d = []) (happ : ∀ e ∈ evs, IsAppSend e)
     (hq : max x.c.seq x.s.seq + evs.length ≤ seqLimit) (m : Bool) :
     (Session.run (Pipeline.ops H P kl) m s (wireRecs (run P L cls ver x evs) cars)).traffic
       = s.traffic ++ List.zipWith (fun e (r : Session.Rec × Bool) => (⟨some (evPt e), r.1, evSrv e, true⟩ : Session.Entry))
           evs (wireRecs (run P L cls ver x evs) cars) ∧
     (wireRecs (run P L cls ver x evs) cars).length = evs.length := by
-  have hs : Ready cls macLen x s := ⟨hcan, ⟨.tls13, hver, ⟨fun _ => h13, fun _ => rfl⟩⟩, d, hdec, hR⟩
+  have hs : Ready cls macLen x s := ⟨⟨hcan, ⟨.tls13, hver, ⟨fun _ => h13, fun _ => rfl⟩⟩, d, hdec, hR⟩, hbuf⟩
   have hev : ∀ e ∈ evs, EvOk cls macLen e := by
     intro e he
     cases e with
@@ -286,8 +287,8 @@ theorem legacy_finished_record (H : Crypto.Prims) (P : Prims) (L : SealLaws P) (
       Ready cls macLen (x.set srv o.1) s' ∧
       (x.set srv o.1).c.seq ≤ max x.c.seq x.s.seq + 1 ∧ (x.set srv o.1).s.seq ≤ max x.c.seq x.s.seq + 1 := by
   intro O o s'
-  obtain ⟨a1, a2, a3, a4, _, a6, a7⟩ := handleRecord_ccs O m s ccs srv hccs
-  have hs1 : Ready cls macLen x (Session.handleRecord O m s ccs srv) := hs.of_eq a1 a2 a3
+  obtain ⟨a1, a2, a3, a4, _, a6, a7, a8, a9⟩ := handleRecord_ccs O m s ccs srv hccs
+  have hs1 : Ready cls macLen x (Session.handleRecord O m s ccs srv) := hs.of_eq a1 a2 a3 a8 a9
   obtain ⟨b1, b2, b3, _, _, b6, b7⟩ := handleRecord_hsEnc H P L kl cls h13 macLen ver hv x _ hs1 srv a4 body f hok hq m car
   exact ⟨b1.trans a6, fun hm => (b2 hm).trans (a7 hm), b3, b6, b7⟩
 
@@ -437,15 +438,15 @@ def sessOf (d : Dec) (v : Session.Ver) : Session.St Dec := { canDecrypt := true,
 example : ∃ s x, Ready (.aead12 .aesccm 8) 32 x s :=
   let ⟨d, _, h⟩ := init_rel_pre13 Toy.prims Toy.laws (.aead12 .aesccm 8) rfl .tls12 (by intro h; cases h) 32
     (by decide) 128 trivial (some 8) false rfl k16 k16' iv4 iv4 (by decide) (by decide)
-  ⟨sessOf d .tls12, _, rfl, ⟨.tls12, rfl, by decide⟩, d, rfl, h⟩
+  ⟨sessOf d .tls12, _, ⟨rfl, ⟨.tls12, rfl, by decide⟩, d, rfl, h⟩, fun b => by cases b <;> rfl⟩
 example : ∃ s x, Ready (.cbcImplicit .tdes false) 20 x s :=
   let ⟨d, _, h⟩ := init_rel_pre13 Toy.prims Toy.laws (.cbcImplicit .tdes false) rfl .tls10 (Or.inr rfl) 20
     (by decide) 64 rfl (some 16) false rfl k24 k24 iv8 iv8 (by decide) (by decide)
-  ⟨sessOf d .tls10, _, rfl, ⟨.tls10, rfl, by decide⟩, d, rfl, h⟩
+  ⟨sessOf d .tls10, _, ⟨rfl, ⟨.tls10, rfl, by decide⟩, d, rfl, h⟩, fun b => by cases b <;> rfl⟩
 example : ∃ s x, Ready (.aead13 .aesgcm 16) 32 x s :=
   let ⟨d, _, h⟩ := init_rel_13 Toy.prims (.aead13 .aesgcm 16) rfl 32 128 none false rfl k16 iv12 k16' iv12 k16' iv12 k16 iv12
     (by decide) (by decide) (by decide) (by decide)
-  ⟨sessOf d .tls13, _, rfl, ⟨.tls13, rfl, by decide⟩, d, rfl, h⟩
+  ⟨sessOf d .tls13, _, ⟨rfl, ⟨.tls13, rfl, by decide⟩, d, rfl, h⟩, fun b => by cases b <;> rfl⟩
 
 -- … and so are the hypotheses on histories: application data in both directions (empty plaintext, a plaintext
 -- ending in zero bytes, TLS 1.3 padding), handshake flights with one Finished each
